@@ -12,7 +12,7 @@ RULE = ("Real processes. Every cell of tool {assembler.py, file_util.py with a c
         "source} x switch {--to_bin, --to_cas, --to_dsk} x {--append, no append} x pre-existing target {absent, empty, "
         "cassette image of 1-3 files, disk image, raw binary, arbitrary bytes (random / truncated tape header / "
         "disk-sized garbage / all zeros / all $FF / one byte repeated / zeros then one byte / disk-sized garbage with a blank first directory slot: 12 shapes, each in every cell), "
-        "cassette >= 161,280 bytes, a 40-track disk image (184,320 bytes); one disk variant stores a complete cassette image as a file} is enumerated (162 cells, 2 content variants each, 12 for arbitrary bytes); "
+        "cassette >= 161,280 bytes, a 40-track disk image (184,320 bytes); one disk variant stores a complete cassette image as a file, one a three-granule file on a scattered chain, one a machine-language file without data bytes} is enumerated (162 cells, 2 content variants each, 12 for arbitrary bytes); "
         "Hypothesis draws further contents for the cells and 2-4 invocation sequences on one path. Decision model: "
         "modification is permitted iff append and kind(existing) == kind being written, kind() decided by the "
         "independent readers (valid Disk BASIC image -> disk; tape grammar with >= 1 file -> cassette; zero-length -> "
@@ -40,14 +40,14 @@ def enumerated(tier, seed):
         for switch in SWITCHES:
             for append in (False, True):
                 for pre in PRES:
-                    for variant in (range(N_ARBITRARY) if pre == "arbitrary" else (0, 1, 2) if pre == "dsk" else (0, 1)):
+                    for variant in (range(N_ARBITRARY) if pre == "arbitrary" else (0, 1, 2, 3) if pre == "dsk" else (0, 1)):
                         if pre in ("absent", "empty") and variant:
                             continue
                         if pre in ("bigcas", "blankdsk", "dsk40") and variant:
                             continue
                         k = 63 + variant if pre == "arbitrary" else variant * 977 + 5      # every arbitrary-content shape
                         if pre == "dsk" and variant:
-                            k = 981 if variant == 1 else 982     # a disk holding a tape image as a file / a scattered 3-granule file
+                            k = {1: 981, 2: 982, 3: 983}[variant]     # a disk holding a tape image as a file / a scattered 3-granule file / an empty program
                         yield dict(steps=[dict(tool=tool, switch=switch, append=append)], pre=pre, k=k)
     # the same target spelled differently on the command line (./x, sub/../x, absolute, ~/x with HOME set): whatever the
     # spelling resolves to, an existing file may only change when append applies to it
@@ -157,6 +157,9 @@ def make_pre(pre, k):
             # a machine-language file of three granules on a scattered chain (the chain is shuffled by make_dsk)
             files[0] = dict(files[0], name="SCATTER", ftype=2, dtype=0, load=0x3000, exec=0x3003,
                             data=bytes(rnd.randrange(256) for _ in range(5000)))
+        if k % 4 == 3:
+            # a machine-language file without any data (an ORG/EQU-only program saved earlier): header and trailer only
+            files[0] = dict(files[0], name="NOBYTES", ftype=2, dtype=0, load=0x3000, exec=0x3000, data=b"")
         if k % 4 == 1:
             # a disk that holds a cassette image as one of its files - never in granule 0: an image that *begins* with a
             # tape stream and is also a valid disk has two honest readings and is not generated (DESIGN 9.5)
